@@ -3,7 +3,7 @@
    handlers read after the same sequence; [ops_ok] = every stored block brings a fresh non-zero block hash
    and fresh pairwise distinct transaction hashes. *)
 From Coq Require Import List NArith ZArith Bool.
-From V Require Import C08.Model C08.Proofs_A C08.Proofs_B C08.Proofs_C.
+From V Require Import C08.Model C08.Proofs_A C08.Proofs_B C08.Proofs_C C08.Proofs_D.
 Import ListNotations.
 Open Scope N_scope.
 
@@ -59,51 +59,219 @@ Theorem C08_finality :
    forall v be id b, (match v with V8 => uses_l1_accepted (RBlockWithReceipts id) | _ => false end) = false ->
    resolve (w_run ops) id = Some b ->
    let s := finality (b_number b) (w_l1 (w_run ops)) in
-   handle v be (db_run ops) (RBlockWithTxHashes id) =
-     ABlock (b_number b) (b_hash b) (b_parent b) s (map t_hash (b_txs b)) /\
-   handle v be (db_run ops) (RBlockWithReceipts id) =
-     ABlockR (b_number b) (b_hash b) (b_parent b) s
-             (map (fun t => (t_hash t, s, t_reverted t, t_events t)) (b_txs b))).
+   handle v be (db_run ops) (RBlockWithTxHashes id) = ABlock (hdr_of b s) (map t_hash (b_txs b)) /\
+   handle v be (db_run ops) (RBlockWithReceipts id) = ABlockR (hdr_of b s) (map (rcv_of s) (b_txs b))).
 Proof. exact (conj finality_iff (conj l1_recorded finality_from_l1)). Qed.
 Print Assumptions C08_finality.
 
-(* Versions: v0.9 and v0.10 coincide on every index state except getStorageAt by the zero block hash;
+(* Versions: v0.9 and v0.10 coincide on every index state except getStorageAt by the zero block hash (and the
+   response flag INCLUDE_LAST_UPDATE_BLOCK, which only v0.10 specifies);
    v0.8 coincides with v0.9 on every produced chain for requests without l1_accepted, which v0.8 rejects. *)
 Theorem C08_versions_agree :
-  (forall be d r, (forall a k, r <> RStorageAt (Hash 0) a k) -> handle V9 be d r = handle V10 be d r) /\
+  (forall be d r, (forall a k, r <> RStorageAt (Hash 0) a k) -> (forall id a k, r <> RStorageAtLU id a k) ->
+     handle V9 be d r = handle V10 be d r) /\
   (forall ops, ops_ok w_init ops = true ->
    forall be r, uses_l1_accepted r = false -> handle V8 be (db_run ops) r = handle V9 be (db_run ops) r) /\
   (forall be d r, uses_l1_accepted r = true -> handle V8 be d r = AErr InvalidParams).
 Proof. exact (conj v9_v10_agree (conj v8_v9_agree v8_l1_invalid)). Qed.
 Print Assumptions C08_versions_agree.
 
-(* ---------- the statements are not vacuous ---------- *)
-Definition D (dep rep non : list (N * N)) (sto : list (N * list (N * N))) (decl : list N) : diff :=
-  {| d_deploy := dep; d_replace := rep; d_nonces := non; d_storage := sto; d_declare := decl |}.
-Definition T (h : N) (r : bool) (e : N) : tx := {| t_hash := h; t_reverted := r; t_events := e |}.
+(* Classes (session 4). [class_visible c ch n] = the definition delivered for class hash ch by the LOWEST block of
+   chain c that delivers one, provided that block is at or below n (last conjunct: exactly that).
+   [delivered_like_sync ops]: every stored block delivers, besides the definitions of the classes it declares,
+   only definitions for class hashes of its own deployed contracts - what the synchroniser's data source does
+   (sync/data_source.go fetchUnknownClasses). For every such history, version, backend and identifier other than
+   block_hash 0x0 (the registered deviation): getClass answers that definition / CLASS_HASH_NOT_FOUND /
+   BLOCK_NOT_FOUND exactly; getClassAt the definition of the class the contract has at the addressed block /
+   CONTRACT_NOT_FOUND / BLOCK_NOT_FOUND; getClassHashAt the class hash the contract has at the addressed block.
+   (Holds since /repo 007ff78; before it the hypothesis had to exclude deliveries for deployed contracts too.) *)
+Theorem C08_class_exact : forall ops, ops_ok w_init ops = true -> delivered_like_sync ops = true ->
+  let w := w_run ops in let c := w_chain w in
+  (forall v be id ch, id <> Hash 0 -> not_v8_l1 v id ->
+     handle v be (db_run ops) (RClass id ch) =
+     match resolve w id with
+     | None => AErr BlockNotFound
+     | Some b => match class_visible c ch (b_number b) with Some def => AClass def | None => AErr ClassHashNotFound end
+     end) /\
+  (forall v be id a, id <> Hash 0 -> not_v8_l1 v id ->
+     handle v be (db_run ops) (RClassAt id a) =
+     match resolve w id with
+     | None => AErr BlockNotFound
+     | Some b => match alookup a (b_state b) with
+                 | None => AErr ContractNotFound
+                 | Some cs => match class_visible c (c_class cs) (b_number b) with
+                              | Some def => AClass def
+                              | None => AErr ContractNotFound
+                              end
+                 end
+     end) /\
+  (forall v be id a, id <> Hash 0 -> not_v8_l1 v id ->
+     handle v be (db_run ops) (RClassHashAt id a) =
+     match resolve w id with
+     | None => AErr BlockNotFound
+     | Some b => match alookup a (b_state b) with Some cs => AFelt (c_class cs) | None => AErr ContractNotFound end
+     end) /\
+  (forall ch n def, class_visible c ch n = Some def <->
+     exists b, In b c /\ b_number b <= n /\ alookup ch (delivered b) = Some def /\
+               (forall b', In b' c -> b_number b' < b_number b -> alookup ch (delivered b') = None)).
+Proof. exact class_exact_sync. Qed.
+Print Assumptions C08_class_exact.
 
+(* The same without any hypothesis on what is delivered, hash by hash: exact for every class hash outside
+   [w_orphans] (hashes that a reverted block had introduced with a definition that was neither declared by it nor
+   the class of one of its deployed contracts). [delivered_like_sync] makes [w_orphans] empty. *)
+Theorem C08_class_exact_per_hash : forall ops, ops_ok w_init ops = true ->
+  let w := w_run ops in let c := w_chain w in
+  (delivered_like_sync ops = true -> w_orphans w = []) /\
+  (forall v be id ch, id <> Hash 0 -> mem ch (w_orphans w) = false -> not_v8_l1 v id ->
+     handle v be (db_run ops) (RClass id ch) =
+     match resolve w id with
+     | None => AErr BlockNotFound
+     | Some b => match class_visible c ch (b_number b) with Some def => AClass def | None => AErr ClassHashNotFound end
+     end) /\
+  (forall v be id a, id <> Hash 0 -> not_v8_l1 v id ->
+     (forall b cs, resolve w id = Some b -> alookup a (b_state b) = Some cs -> mem (c_class cs) (w_orphans w) = false) ->
+     handle v be (db_run ops) (RClassAt id a) =
+     match resolve w id with
+     | None => AErr BlockNotFound
+     | Some b => match alookup a (b_state b) with
+                 | None => AErr ContractNotFound
+                 | Some cs => match class_visible c (c_class cs) (b_number b) with
+                              | Some def => AClass def
+                              | None => AErr ContractNotFound
+                              end
+                 end
+     end).
+Proof. exact class_exact_per_hash. Qed.
+Print Assumptions C08_class_exact_per_hash.
+
+(* A revert un-declares: a class that no block below the reverted head delivers is found under no identifier. *)
+Theorem C08_class_undeclared_by_revert : forall ops b r, ops_ok w_init ops = true ->
+  w_chain (w_run ops) = b :: r ->
+  forall ch, class_decl r ch = None ->
+  let ops' := ops ++ [ORevert] in
+  delivered_like_sync ops = true ->
+  forall v be id, id <> Hash 0 -> not_v8_l1 v id ->
+  handle v be (db_run ops') (RClass id ch) =
+  match resolve (w_run ops') id with None => AErr BlockNotFound | Some _ => AErr ClassHashNotFound end.
+Proof. exact class_undeclared_by_revert. Qed.
+Print Assumptions C08_class_undeclared_by_revert.
+
+(* ... and the declaration on the replacing branch is the one served from then on (also with another definition). *)
+Theorem C08_class_redeclared : forall ops b r h hp txs df extra, ops_ok w_init ops = true ->
+  w_chain (w_run ops) = b :: r ->
+  let ops' := ops ++ [ORevert; OStore h hp txs df extra] in
+  ops_ok w_init ops' = true ->
+  delivered_like_sync ops' = true ->
+  forall ch def, class_decl r ch = None -> alookup ch (declared_defs df ++ extra) = Some def ->
+  forall v be, handle v be (db_run ops') (RClass Latest ch) = AClass def.
+Proof. exact class_redeclared. Qed.
+Print Assumptions C08_class_redeclared.
+
+(* Whole payloads (session 4): whatever method of whatever version on whatever backend returns the transaction
+   (receipt) with hash h returns the payload of THE transaction with that hash in the chain - hence any two
+   agree -, and the three block methods say the same about the block, namely what the resolved block says. *)
+Theorem C08_payload_agree : forall ops, ops_ok w_init ops = true ->
+  let w := w_run ops in let d := db_run ops in
+  (forall v be r h p, In (h, p) (answer_txs (handle v be d r)) ->
+     exists b i t, find_tx (w_chain w) h = Some (b, i, t) /\ t_pay t = p) /\
+  (forall v be r v' be' r' h p p', In (h, p) (answer_txs (handle v be d r)) ->
+     In (h, p') (answer_txs (handle v' be' d r')) -> p = p') /\
+  (forall v be r h p, In (h, p) (answer_rcs (handle v be d r)) ->
+     exists b i t, find_tx (w_chain w) h = Some (b, i, t) /\ t_rpay t = p) /\
+  (forall v be r v' be' r' h p p', In (h, p) (answer_rcs (handle v be d r)) ->
+     In (h, p') (answer_rcs (handle v' be' d r')) -> p = p') /\
+  (forall v be id,
+     answer_hdr (handle v be d (RBlockWithTxHashes id)) = answer_hdr (handle v be d (RBlockWithTxs id)) /\
+     answer_hdr (handle v be d (RBlockWithTxs id)) = answer_hdr (handle v be d (RBlockWithReceipts id)) /\
+     (not_v8_l1 v id ->
+      answer_hdr (handle v be d (RBlockWithTxHashes id)) =
+      option_map (fun b => hdr_of b (finality (b_number b) (w_l1 w))) (resolve w id))).
+Proof. exact payload_agree. Qed.
+Print Assumptions C08_payload_agree.
+
+(* getStorageAt with INCLUDE_LAST_UPDATE_BLOCK (v0.10, session 4): the value as without the flag, and as
+   last_update_block the number of the HIGHEST block of the current chain at or below the addressed block whose
+   state diff writes the slot, 0 when there is none (second conjunct: exactly that). *)
+Theorem C08_last_update_exact : forall ops, ops_ok w_init ops = true ->
+  let w := w_run ops in
+  (forall be id a k, id <> Hash 0 ->
+     handle V10 be (db_run ops) (RStorageAtLU id a k) =
+     match resolve w id with
+     | None => AErr BlockNotFound
+     | Some b => match alookup a (b_state b) with
+                 | None => AErr ContractNotFound
+                 | Some cs => AFeltAt (slot cs k) (last_write (w_chain w) a k (b_number b))
+                 end
+     end) /\
+  (forall a k n,
+     ((exists b, In b (w_chain w) /\ b_number b <= n /\ writes (b_diff b) a k = true) ->
+      exists b, In b (w_chain w) /\ b_number b = last_write (w_chain w) a k n /\ b_number b <= n /\
+        writes (b_diff b) a k = true /\
+        (forall b', In b' (w_chain w) -> b_number b' <= n -> writes (b_diff b') a k = true -> b_number b' <= b_number b)) /\
+     ((forall b, In b (w_chain w) -> b_number b <= n -> writes (b_diff b) a k = false) ->
+      last_write (w_chain w) a k n = 0)).
+Proof. exact last_update_exact. Qed.
+Print Assumptions C08_last_update_exact.
+
+(* ---------- the statements are not vacuous ---------- *)
+Definition D (dep rep non : list (N * N)) (sto : list (N * list (N * N))) (decl0 : list (N * N))
+             (decl1 : list (N * (N * N))) : diff :=
+  {| d_deploy := dep; d_replace := rep; d_nonces := non; d_storage := sto; d_declare0 := decl0; d_declare1 := decl1 |}.
+Definition T (h : N) (r : bool) (e : N) : tx :=
+  {| t_hash := h; t_reverted := r; t_events := e; t_pay := 7000 + h; t_rpay := 8000 + h |}.
+
+(* class 900 (Cairo-0, definition 1) and 950 (Sierra, compiled hash 77, definition 5) declared in block 0; block 2 is
+   reverted and replaced: the reverted block declared 901 with definition 2, the replacing one with definition 3;
+   block 1 deploys 0xc with class 902 which it delivers without declaring it *)
 Definition ex_ops : list op :=
-  [ OStore 101 [T 1001 false 1; T 1002 true 0] (D [(10, 900); (11, 901)] [] [] [(10, [(5, 7)])] [900]);
-    OStore 102 [T 1003 false 2] (D [(12, 902)] [] [(10, 3)] [(10, [(5, 0); (6, 9)])] []);
+  [ OStore 101 51 [T 1001 false 1; T 1002 true 0] (D [(10, 900); (11, 901)] [] [] [(10, [(5, 7)])] [(900, 1)] [(950, (77, 5))]) [];
+    OStore 102 52 [T 1003 false 2] (D [(12, 902)] [] [(10, 3)] [(10, [(5, 0); (6, 9)])] [] []) [(902, 4)];
     OSetL1 0;
-    OStore 103 [] (D [] [(11, 900)] [] [] []);
+    OStore 103 53 [] (D [] [(11, 900)] [] [] [(901, 2)] []) [];
     ORevert;
-    OStore 104 [T 1004 false 0] (D [] [] [(11, 1)] [] [901]);
+    OStore 104 54 [T 1004 false 0] (D [] [] [(11, 1)] [] [(901, 3)] []) [];
     OSetL1 7 ].
 
-Example ex_ops_admissible : ops_ok w_init ex_ops = true.
-Proof. vm_compute. reflexivity. Qed.
+Example ex_ops_admissible : ops_ok w_init ex_ops = true /\ delivered_like_sync ex_ops = true.
+Proof. vm_compute. split; reflexivity. Qed.
 
 Example ex_answers :
   handle V10 NewState (db_run ex_ops) (RBlockWithTxHashes (Hash 103)) = AErr BlockNotFound /\
-  handle V10 Legacy (db_run ex_ops) (RBlockWithTxHashes L1Accepted) = ABlock 2 104 102 AcceptedL1 [1004] /\
+  handle V10 Legacy (db_run ex_ops) (RBlockWithTxHashes L1Accepted) =
+    ABlock {| hd_number := 2; hd_hash := 104; hd_parent := 102; hd_status := AcceptedL1; hd_pay := 54 |} [1004] /\
   handle V9 Legacy (db_run ex_ops) (RStorageAt (Number 0) 10 5) = AFelt 7 /\
   handle V10 NewState (db_run ex_ops) (RStorageAt Latest 10 5) = AFelt 0 /\
-  handle V8 Legacy (db_run ex_ops) (RClassAt Latest 12) = AErr ContractNotFound /\
-  handle V8 Legacy (db_run ex_ops) (RReceipt 1002) = AReceipt 1002 0 101 AcceptedL1 true 0.
+  handle V8 Legacy (db_run ex_ops) (RClassAt Latest 12) = AClass 4 /\
+  handle V8 Legacy (db_run ex_ops) (RClassAt (Number 0) 11) = AErr ContractNotFound /\
+  handle V8 Legacy (db_run ex_ops) (RReceipt 1002) = AReceipt 1002 0 101 AcceptedL1 true 0 9002 /\
+  handle V9 NewState (db_run ex_ops) (RTxByIdx (Number 1) 0%Z) = ATx 1003 8003 /\
+  handle V10 Legacy (db_run ex_ops) (RStorageAtLU Latest 10 5) = AFeltAt 0 1 /\
+  handle V10 NewState (db_run ex_ops) (RStorageAtLU (Number 0) 10 5) = AFeltAt 7 0 /\
+  handle V10 NewState (db_run ex_ops) (RStorageAtLU Latest 10 6) = AFeltAt 9 1 /\
+  handle V10 NewState (db_run ex_ops) (RStorageAtLU Latest 11 6) = AFeltAt 0 0 /\
+  handle V9 NewState (db_run ex_ops) (RStorageAtLU Latest 10 6) = AErr InvalidParams /\
+  handle V10 NewState (db_run ex_ops) (RBlockWithTxs (Number 0)) =
+    ABlockT {| hd_number := 0; hd_hash := 101; hd_parent := 0; hd_status := AcceptedL1; hd_pay := 51 |}
+            [(1001, 8001); (1002, 8002)].
 Proof. vm_compute. repeat split. Qed.
 
-(* ---------- the two deviations are real (model witnesses; the harness replays them on juno) ---------- *)
+(* classes: visible from the declaring block on, not below it, Sierra and Cairo-0 alike; the reverted declaration
+   of 901 (definition 2) is gone, the replacing branch's definition 3 is served; 902 is delivered for a deployed
+   contract (like the synchroniser does) *)
+Example ex_class_answers :
+  w_orphans (w_run ex_ops) = [] /\
+  handle V10 Legacy (db_run ex_ops) (RClass (Number 0) 950) = AClass 5 /\
+  handle V9 NewState (db_run ex_ops) (RClass (Number 0) 902) = AErr ClassHashNotFound /\
+  handle V9 NewState (db_run ex_ops) (RClass (Number 1) 902) = AClass 4 /\
+  handle V8 Legacy (db_run ex_ops) (RClass (Number 1) 901) = AErr ClassHashNotFound /\
+  handle V8 Legacy (db_run ex_ops) (RClass Latest 901) = AClass 3 /\
+  handle V10 NewState (db_run ex_ops) (RClass (Hash 104) 901) = AClass 3 /\
+  handle V10 NewState (db_run (firstn 5 ex_ops)) (RClass Latest 901) = AErr ClassHashNotFound /\
+  handle V10 NewState (db_run (firstn 4 ex_ops)) (RClass Latest 901) = AClass 2.
+Proof. vm_compute. repeat split. Qed.
+
+(* ---------- the deviations are real (model witnesses; the harness replays them on juno) ---------- *)
 (* getTransactionByBlockIdAndIndex with an absent block NUMBER answers INVALID_TXN_INDEX, not BLOCK_NOT_FOUND *)
 Example C08_txidx_absent_number_refuted :
   exists ops v be r, ops_ok w_init ops = true /\ deviates (w_run ops) r = DevTxIdxAbsentNumber /\
@@ -123,3 +291,55 @@ Example C08_versions_zero_hash_differ :
   handle V9 Legacy db_init (RStorageAt (Hash 0) 10 5) = AErr ContractNotFound /\
   handle V10 Legacy db_init (RStorageAt (Hash 0) 10 5) = AFelt 0.
 Proof. vm_compute. split; reflexivity. Qed.
+
+(* The case repaired by /repo 007ff78 (regression witness): block 1 deploys 0xc with class 902 and delivers its
+   definition without declaring it, as the synchroniser does for old blocks; the revert of block 1 now removes it,
+   and a later declaration with another definition is the one that is served. *)
+Definition deploy_delivery_ops : list op :=
+  [ OStore 101 51 [] (D [] [] [] [] [] []) [];
+    OStore 102 52 [] (D [(12, 902)] [] [] [] [] []) [(902, 4)];
+    ORevert ].
+
+Example ex_deploy_delivery_reverted :
+  ops_ok w_init deploy_delivery_ops = true /\ delivered_like_sync deploy_delivery_ops = true /\
+  (forall v be, handle v be (db_run deploy_delivery_ops) (RClass Latest 902) = AErr ClassHashNotFound) /\
+  (forall v be, handle v be (db_run (firstn 2 deploy_delivery_ops)) (RClass Latest 902) = AClass 4) /\
+  let ops2 := deploy_delivery_ops ++ [OStore 104 54 [] (D [] [] [] [] [(902, 9)] []) []] in
+  (forall v be, handle v be (db_run ops2) (RClass Latest 902) = AClass 9).
+Proof.
+  vm_compute. repeat split; intros;
+    repeat match goal with x : ver |- _ => destruct x | x : backend |- _ => destruct x end; reflexivity.
+Qed.
+
+(* [delivered_like_sync] is not decorative - but only OUTSIDE what the synchroniser does: a definition delivered
+   for a class hash that the block merely uses in a replace_class (or does not reference at all) is written by
+   Update and visited by no Revert. It survives the revert of its block: getClass(latest) serves a class no block
+   of the chain has, and a later declaration of the same hash keeps the stale declared-at / definition.
+   sync/data_source.go never delivers such a definition (deployed contracts and the two declared lists only), so
+   this is misuse of Blockchain.Store, not a behaviour of a node; the harness compares it with the model only. *)
+Definition orphan_ops : list op :=
+  [ OStore 101 51 [] (D [(12, 900)] [] [] [] [(900, 1)] []) [];
+    OStore 102 52 [] (D [] [(12, 902)] [] [] [] []) [(902, 4)];
+    ORevert ].
+
+Example C08_delivered_like_sync_needed :
+  ops_ok w_init orphan_ops = true /\ delivered_like_sync orphan_ops = false /\
+  w_orphans (w_run orphan_ops) = [902] /\
+  deviates (w_run orphan_ops) (RClass Latest 902) = DevOrphanClass /\
+  (forall v be, handle v be (db_run orphan_ops) (RClass Latest 902) = AClass 4) /\
+  (forall v, expected v (w_run orphan_ops) (RClass Latest 902) = AErr ClassHashNotFound) /\
+  (* by number the history reader still hides it: declared-at 1 is above block 0 *)
+  (forall v be, handle v be (db_run orphan_ops) (RClass (Number 0) 902) = AErr ClassHashNotFound) /\
+  (* a later block that DECLARES 902 with definition 9 does not get its definition served, and the stale
+     declared-at makes the class visible one block too early *)
+  let ops2 := orphan_ops ++ [OStore 103 53 [] (D [] [] [] [] [] []) [];
+                             OStore 104 54 [] (D [] [] [] [] [(902, 9)] []) []] in
+  ops_ok w_init ops2 = true /\
+  handle V10 NewState (db_run ops2) (RClass Latest 902) = AClass 4 /\
+  expected V10 (w_run ops2) (RClass Latest 902) = AClass 9 /\
+  handle V10 Legacy (db_run ops2) (RClass (Number 1) 902) = AClass 4 /\
+  expected V10 (w_run ops2) (RClass (Number 1) 902) = AErr ClassHashNotFound.
+Proof.
+  vm_compute. repeat split; intros;
+    repeat match goal with x : ver |- _ => destruct x | x : backend |- _ => destruct x end; reflexivity.
+Qed.
